@@ -312,7 +312,13 @@ func (c *Ctx) lockDiscipline(fs *State, op regOp, ctxObj, mapObj int, mk func(st
 		}
 	}
 	// accesses through the map created by Clear (a fresh object stored into the registry) are writes to ctxObj, covered above
-	c.Prove(fs, "shared-access-under-lock", B(bad == ""), mk(bad))
+	stress := func(what string) func(val func(*Term) uint64) *Violation {
+		return func(val func(*Term) uint64) *Violation {
+			return &Violation{Detail: fmt.Sprintf("%s: %s", op, what),
+				Replay: &ReplayReq{Steps: []map[string]any{step("op", "registry", "threads", 8, "n", 4000)}, Judge: Judge{Kind: "anomaly", Step: 0, Note: "race"}}}
+		}
+	}
+	c.Prove(fs, "shared-access-under-lock", B(bad == ""), stress(bad))
 	// 2. mutex free at return, lock events well-formed
 	held := false
 	for _, v := range fs.locks {
@@ -320,7 +326,11 @@ func (c *Ctx) lockDiscipline(fs *State, op regOp, ctxObj, mapObj int, mk func(st
 			held = true
 		}
 	}
-	c.Prove(fs, "mutex-free-at-return", B(!held), mk("the mutex is still held when the operation returns"))
+	c.Prove(fs, "mutex-free-at-return", B(!held), func(val func(*Term) uint64) *Violation {
+		// a second call of any locking operation then blocks for ever: replayed as a sequential script under a time limit
+		return &Violation{Detail: fmt.Sprintf("%s: the mutex is still held when the operation returns", op),
+			Replay: &ReplayReq{Steps: append(regReplaySteps("init", []regOp{op, op, {Op: "Clear"}}, []string{"CRC16", "CRC16", ""})), Judge: Judge{Kind: "abort"}}}
+	})
 	okEv := true
 	acquires := 0
 	for _, ev := range fs.lockEvs {
